@@ -2033,6 +2033,62 @@ fn main() {
                             let (acc, c) = match &client { Ok(a) => (*a as i64, "ok".to_string()), Err(e) => (-1, e.clone()) };
                             format!("{{\"client\":\"{}\",\"accepted\":{},\"n\":{},\"all_settled_by_sender\":{},\"log\":{}}}", c, acc, n, all, sp::json_list(&log))
                         }
+                        // mixed_settle_modes: a client-side receiver on a link with rcv-settle-mode=second gets delivery 0 with
+                        //   the per-transfer override rcv-settle-mode=first and delivery 1 without (so: second), and accepts both in
+                        //   one accept_all. Delivery 1 must not be settled by the receiver on its own.
+                        "mixed_settle_modes" => {
+                            use fe2o3_amqp_types::definitions::{Handle, ReceiverSettleMode};
+                            use fe2o3_amqp_types::performatives::Transfer;
+                            use fe2o3_amqp_types::primitives::Binary;
+                            fn xfer(ch: u16, handle: Handle, id: u32, mode: Option<ReceiverSettleMode>) -> Frame {
+                                let performative = Transfer { handle, delivery_id: Some(id), delivery_tag: Some(Binary::from(id.to_be_bytes().to_vec())), message_format: Some(0), settled: Some(false), more: false, rcv_settle_mode: mode, state: None, resume: false, aborted: false, batchable: false };
+                                Frame::new(ch, FrameBody::Transfer { performative, payload: Bytes::from_static(&[0x00, 0x53, 0x77, 0xa1, 0x01, b'x']) })
+                            }
+                            let mut sent = false;
+                            let peer = tokio::spawn(sp::run(peer_io, sp::PeerCfg::default(), move |f: &Frame, _log: &[String]| {
+                                let mut act = sp::Act::default();
+                                if let FrameBody::Flow(fl) = &f.body {
+                                    if let (Some(h), false) = (fl.handle.clone(), sent) {
+                                        if fl.link_credit.unwrap_or(0) >= 2 {
+                                            sent = true;
+                                            act.replies.push(xfer(f.channel, h.clone(), 0, Some(ReceiverSettleMode::First)));
+                                            act.replies.push(xfer(f.channel, h, 1, None));
+                                        }
+                                    }
+                                }
+                                act
+                            }));
+                            let client = tokio::time::timeout(Duration::from_secs(8), async {
+                                let mut conn = fe2o3_amqp::Connection::builder().container_id("client").open_with_stream(client_io).await.map_err(|_| "open_failed")?;
+                                let mut session = fe2o3_amqp::Session::begin(&mut conn).await.map_err(|_| "begin_failed")?;
+                                let mut receiver = fe2o3_amqp::Receiver::builder().name("r-1").source("q1").receiver_settle_mode(ReceiverSettleMode::Second).auto_accept(false).attach(&mut session).await.map_err(|_| "attach_failed")?;
+                                let d0 = tokio::time::timeout(Duration::from_secs(2), receiver.recv::<String>()).await.map_err(|_| "recv0_timeout")?.map_err(|_| "recv0_failed")?;
+                                let d1 = tokio::time::timeout(Duration::from_secs(2), receiver.recv::<String>()).await.map_err(|_| "recv1_timeout")?.map_err(|_| "recv1_failed")?;
+                                receiver.accept_all(vec![&d0, &d1]).await.map_err(|_| "accept_all_failed")?;
+                                tokio::time::sleep(Duration::from_millis(300)).await;
+                                let _ = tokio::time::timeout(Duration::from_secs(1), receiver.close()).await;
+                                let _ = tokio::time::timeout(Duration::from_secs(1), session.end()).await;
+                                let _ = tokio::time::timeout(Duration::from_secs(1), conn.close()).await;
+                                Ok::<_, &'static str>("ok")
+                            })
+                            .await
+                            .unwrap_or(Err("hang"));
+                            let log = tokio::time::timeout(Duration::from_secs(2), peer).await.ok().and_then(|r| r.ok()).unwrap_or_default();
+                            // does a SETTLING disposition of the receiver cover delivery 1 ?
+                            let mut one_settled = false;
+                            let mut zero_settled = false;
+                            for l in log.iter().filter(|l| l.starts_with("disposition:Receiver:") && l.contains(":settledtrue:")) {
+                                let range = l.split(':').nth(2).unwrap_or("");
+                                let mut it = range.split('-');
+                                let first = it.next().and_then(|t| t.parse::<u32>().ok());
+                                let last = it.next().and_then(|t| t.trim_start_matches("Some(").trim_end_matches(')').parse::<u32>().ok()).or(first);
+                                if let (Some(a), Some(b)) = (first, last) {
+                                    one_settled |= a <= 1 && 1 <= b;
+                                    zero_settled |= a == 0;
+                                }
+                            }
+                            format!("{{\"client\":\"{}\",\"second_mode_delivery_left_unsettled\":{},\"first_mode_delivery_settled\":{},\"log\":{}}}", client.unwrap_or_else(|e| e), !one_settled, zero_settled, sp::json_list(&log))
+                        }
                         _ => "{\"error\":\"unknown scenario\"}".to_string(),
                     }
                 })
